@@ -561,3 +561,34 @@ Theorem C01_render_path_sites :
        ("builder/styled_str.rs", "StyledStr::wrap", "index", 1) ])%string.
 Proof. exact render_path_sites_listed. Qed.
 Print Assumptions C01_render_path_sites.
+
+(** ---------- round 5: the property statement at the entry point, in one theorem ----------
+    For EVERY definition the gate accepts and EVERY argv, [try_get_matches_from] returns
+    - matches, or
+    - a structured error that stands for rich errors each of which renders without panic, and that under error-ignoring is a
+      help / version request, or
+    - (the recorded finding, and nothing else) the panic of the one debug assertion 920 -- and then the definition is outside
+      [flag_sub_class] AND the line contains a short cluster of more than one character;
+    never out of fuel, never "invalid configuration", never another panic site. *)
+Theorem C01_entry_point_summary : forall c0 argv, unbuilt c0 = true -> valid c0 = true ->
+  match parse_top c0 argv with
+  | OOk _ => True
+  | OErr e =>
+      (rich_alternatives e <> [] /\ forall r, In r (rich_alternatives e) -> forall dbg s, render dbg r <> Panic s)
+      /\ (is_set s_ignore_errors c0 = true -> e_kind e = EDisplayHelp \/ e_kind e = EDisplayVersion)
+  | OPanicked s => s = 920 /\ flag_sub_class c0 = false /\ single_clusters argv = false
+  | OOutOfFuel | OInvalidConfig => False
+  end.
+Proof. exact entry_point_summary. Qed.
+Print Assumptions C01_entry_point_summary.
+
+(** [C01_renders] at the entry point *)
+Theorem C01_renders_argv : forall c0 argv e, parse_top c0 argv = OErr e ->
+  rich_alternatives e <> []
+  /\ forall r, In r (rich_alternatives e) ->
+       constructed r
+       /\ (r_kind r = e_kind e \/ Some (r_kind r) = e_alt e)
+       /\ (forall dbg s, render dbg r <> Panic s)
+       /\ (rich_expected r = true -> forall dbg, exists txt, write_dynamic_context dbg r = Done (true, txt)).
+Proof. exact parser_errors_render_top. Qed.
+Print Assumptions C01_renders_argv.
